@@ -129,7 +129,10 @@ def run_gt(case):
         rules, V, m = to_ints(rules, V)
         ops = tuple(o if o[0] != "A" else ("A", o[1], (m.get(o[2][0], o[2][0]), m.get(o[2][1], o[2][1])), o[3]) for o in ops)
     tabG = enum_derivs(rules, "S", V, Poly.D)
-    WT = fsm.poly_weights(len(ops), offset=VOFF)
+    if sum(1 for o in ops if o[0] == "A") >= 2:
+        WT = fsm.arc_weights(ops, offset=VOFF, unit=("I", "F"))  # degree budget on arcs and grammar rules
+    else:
+        WT = fsm.poly_weights(len(ops), offset=VOFF)
     tabT = paths(fsm.data(ops, WT), fst=True)
     want = {}
     for (x, y), wt in tabT.items():
